@@ -16,6 +16,7 @@ import Proofs.Lemmas.C03Decimal
 import Proofs.Lemmas.C03DecFB
 import Proofs.Lemmas.C03Mirror
 import Proofs.Lemmas.C03TrMirror
+import Proofs.Lemmas.C03Clamp
 import Model.Fmt.Reader
 
 namespace C03
@@ -237,6 +238,21 @@ theorem expLoop_exact (ds : Bytes) (hd : ds.all isDec = true) : ∀ e, valFrom e
     rw [valFrom_cons]
     exact ih hd.2 _ hlt
 
+/-- **expLoop_clamp_correct** — what the clamp `if e < 10000 { e = e*10 + digit }` of the exponent
+digit loop (shared by `readFloat` and `decimal.set`) really does: an exponent literal below
+100000 is read EXACTLY (the test looks at the value accumulated so far, so a fifth digit is still
+taken); of a longer literal the loop keeps the first five significant digits — a number c with
+10000 ≤ c ≤ 99999 and 10·c ≤ literal. -/
+theorem expLoop_clamp_correct (ds : Bytes) (hd : ds.all isDec = true) :
+    expLoop ds 0 = (clampFrom 0 ds, []) ∧
+    (valOf 10 ds < 100000 → clampFrom 0 ds = valOf 10 ds) ∧
+    (100000 ≤ valOf 10 ds → 10000 ≤ clampFrom 0 ds ∧ clampFrom 0 ds ≤ 99999 ∧ 10 * clampFrom 0 ds ≤ valOf 10 ds) := by
+  have h := expLoop_block ds hd 0 []
+  rw [List.append_nil] at h
+  obtain ⟨c1, c2⟩ := clampFrom_spec ds hd 0 (by decide)
+  rw [← valOf_eq] at c1 c2
+  exact ⟨by rw [h]; rfl, c1, c2⟩
+
 /-- **readFloat_value** (full strength) — for every byte string s on which `underscoreOK` holds
 (the only texts `ParseFloat` hands to `readFloat`):
 
@@ -246,13 +262,14 @@ theorem expLoop_exact (ds : Bytes) (hd : ds.all isDec = true) : ∀ e, valFrom e
 * when both accept: same sign, same `hex` flag, the `uint64` mantissa did not wrap, and — when
   `trunc` is false — (mantissa, exp) denote the same number as the specification's exact
   (M, E): M = mantissa·B^j and exp = E + bits·j, where j is the number of trailing zero digits
-  the 19/16-digit cap dropped (B = 10, bits = 1; hex: B = 16, bits = 4), provided the exponent
-  literal is below the clamp 10000 (`readFloat` stops accumulating there: "it doesn't matter if
-  it's not the exact number", which is true only for texts shorter than ~10^4 bytes).
-  A zero mantissa reports exp = 0 (the value is 0 either way). -/
+  the 19/16-digit cap dropped (B = 10, bits = 1; hex: B = 16, bits = 4), plus `expGapS s`: what
+  the clamp of the exponent digit loop adds — 0 for every exponent literal below 100000
+  (`expGapS_zero`), clamped literal − literal beyond (`readFloat` stops accumulating at 10000:
+  "it doesn't matter if it's not the exact number", which is true only while the mantissa text
+  cannot compensate it, see `parseFloat_correct`). A zero mantissa reports exp = 0. -/
 theorem readFloat_value (s : Bytes) (hu : underscoreOK s = true) :
     (recognise s = none → (readFloat s).ok = false) ∧
-    (∀ p, recognise s = some p → Agrees (readFloat s) p (expLit s)) :=
+    (∀ p, recognise s = some p → Agrees (readFloat s) p (expGapS s)) :=
   readFloat_recognise s hu
 
 /-- **readFloat_language** — and a text rejected by `underscoreOK` (hence by `ParseFloat`) is not
@@ -261,9 +278,9 @@ in the specification's language either. Together with `readFloat_value` and `spe
 theorem readFloat_language (s : Bytes) (hu : underscoreOK s = false) : recognise s = none :=
   recognise_of_not_uok s hu
 
-example : Agrees (readFloat (Bytes.ofString "-1_2.50e+3")) ⟨true, false, 1250, 1⟩ 3 := by
+example : Agrees (readFloat (Bytes.ofString "-1_2.50e+3")) ⟨true, false, 1250, 1⟩ 0 := by
   refine ⟨by decide +kernel, by decide +kernel, by decide +kernel, by decide +kernel,
-    fun _ => ⟨0, by decide +kernel, fun _ _ => by decide +kernel⟩, fun h => ?_⟩
+    fun _ => ⟨0, by decide +kernel, fun _ => by decide +kernel⟩, fun h => ?_⟩
   have : (readFloat (Bytes.ofString "-1_2.50e+3")).trunc = false := by decide +kernel
   rw [this] at h; cases h
 
@@ -390,7 +407,13 @@ special values → `readFloat` → hex path / exact path / slow path) returns ex
 `parseFloatSpec` says — the same float bit for bit, or the same error — for every byte string
 
 * outside the class of finding N3 (more than 800 significant digits before the point),
-* whose exponent literal is below the clamp 10000.
+* whose exponent literal is below 100000 (then the clamp `e < 10000` of the exponent digit loop has
+  not dropped a digit, `expLoop_clamp_correct`), OR whose mantissa text is `Moderate`: at most
+  9669 significant digits before the point and 9691 after it (hex: 2231 and 2244). Then the
+  clamped exponent still drives the value to ±0 / ±Inf + range error exactly as the exact one
+  (`clamp_agree`; the bounds are sharp). Outside both — e.g. `0x0.` + 2499 zeros + `1p100000`,
+  2 511 bytes, true value 2^90000 — the real code (and strconv) return a finite wrong value:
+  finding candidate, see notes/C03.md and `clamp_witness`.
 
 Composition of `readFloat_language`, `special_correct`, `readFloat_value`, `hex_path_correct`
 (and its extension to truncated mantissas: when `readFloat` dropped non-zero hex digits the true
@@ -399,13 +422,35 @@ representation, and the same rounding argument applies — `atofHex_trunc_correc
 `exact_path_correct` and, for the slow path (which in the model IS the specification), the
 proof that the two "obvious overflow/underflow" exits of `floatBits` agree with the range rule
 and with the rounding of a tiny value to ±0 (`slowPath_spec`). -/
-theorem parseFloat_correct (s : Bytes) (hN3 : inClassN3 s = false) (hlit : expLit s < 10000) :
-    (parseFloat s).toExcept = parseFloatSpec s :=
-  parseFloat_eq_spec s hN3 hlit
+theorem parseFloat_correct (s : Bytes) (hN3 : inClassN3 s = false) (hlit : expLit s < 100000 ∨ Moderate s) :
+    (parseFloat s).toExcept = parseFloatSpec s := by
+  rw [parseFloat_eq_clamped s hN3, parseFloatSpecG_agree s hlit]
+
+/-- **parseFloat_clamped_correct** — with NO condition on the exponent: `ParseFloat` returns what
+the specification says for the same numeral with its exponent literal clamped the way the code
+clamps it (`expGapS`; the only deviation from `parseFloatSpec` that remains outside N3). -/
+theorem parseFloat_clamped_correct (s : Bytes) (hN3 : inClassN3 s = false) :
+    (parseFloat s).toExcept = parseFloatSpecG (expGapS s) s :=
+  parseFloat_eq_clamped s hN3
+
+/-- **clamp_witness** — the hypothesis of `parseFloat_correct` cannot be dropped: on the 2 511-byte
+text `0x0.` + 2499 zeros + `1p100000` (value 16^-2500·2^100000 = 2^90000) the specification says
+range error, while the model of `ParseFloat` — like the real code and like strconv, see
+notes/C03.md — returns 1.0: the exponent literal is clamped to 10000 and 4·2500 hex places
+compensate exactly that. The text is outside N3, its exponent literal is 100000, and it has
+2500 > 2244 digits after the point. Kernel-evaluated. -/
+def clampWitness : Bytes := Bytes.ofString "0x0." ++ List.replicate 2499 48 ++ Bytes.ofString "1p100000"
+
+theorem clamp_witness :
+    parseFloatSpec clampWitness = .error .range ∧
+    (parseFloat clampWitness).toExcept = .ok 0x3FF0000000000000 ∧
+    inClassN3 clampWitness = false ∧ expLit clampWitness = 100000 ∧ mantLens clampWitness = (0, 2500) := by
+  decide +kernel
 
 /-- **reader_atof_correct** — the same for the reader's `atof` (integer fast path, else
 `ParseFloat`) on every non-empty field. -/
-theorem reader_atof_correct (x : Bytes) (hne : x ≠ []) (hN3 : inClassN3 x = false) (hlit : expLit x < 10000) :
+theorem reader_atof_correct (x : Bytes) (hne : x ≠ []) (hN3 : inClassN3 x = false)
+    (hlit : expLit x < 100000 ∨ Moderate x) :
     (readerAtof x).toExcept = parseFloatSpec x := by
   cases h : atofLoop x 0 with
   | some v => exact atof_fast_correct x hne v h
@@ -415,12 +460,12 @@ theorem reader_atof_correct (x : Bytes) (hne : x ≠ []) (hN3 : inClassN3 x = fa
     exact parseFloat_correct x hN3 hlit
 
 example : (parseFloat (Bytes.ofString "0x1.8p1")).toExcept = parseFloatSpec (Bytes.ofString "0x1.8p1") :=
-  parseFloat_correct _ (by decide +kernel) (by decide +kernel)
+  parseFloat_correct _ (by decide +kernel) (Or.inl (by decide +kernel))
 
 /-- a hex literal with 20 digits (truncated mantissa) and a tie broken by the dropped digit -/
 example : (parseFloat (Bytes.ofString "0x1.00000000000008000001p0")).toExcept
     = parseFloatSpec (Bytes.ofString "0x1.00000000000008000001p0") :=
-  parseFloat_correct _ (by decide +kernel) (by decide +kernel)
+  parseFloat_correct _ (by decide +kernel) (Or.inl (by decide +kernel))
 
 /-! ## the decimal slow path: its rounding step -/
 
@@ -486,9 +531,9 @@ clamp) it builds a well-formed, untruncated decimal with the numeral's sign and 
 theorem decSet_correct (s : Bytes) (hu : underscoreOK s = true) :
     (recognise s = none → decSet s = none) ∧
     (∀ p, recognise s = some p → p.hex = true → decSet s = none) ∧
-    (∀ p, recognise s = some p → p.hex = false → p.mant < 10 ^ 800 → expLit s < 10000 →
+    (∀ p, recognise s = some p → p.hex = false → p.mant < 10 ^ 800 →
       ∃ d, decSet s = some d ∧ WF d ∧ d.trunc = false ∧ d.neg = p.neg ∧ (p.mant = 0 → d.d = []) ∧
-        (p.mant ≠ 0 → d.d ≠ [] ∧ dval d = valueOf p)) :=
+        (p.mant ≠ 0 → d.d ≠ [] ∧ dval d = valueOf (clampP p (expGapS s)))) :=
   decSet_spec s hu
 
 /-! ### truncating runs: the 800-digit buffer overflows and `trunc` is set -/
@@ -538,45 +583,53 @@ finding N3 (at most 800 significant digits before the point, any number after it
 it builds is the text's value cut to the 800-digit buffer — `value(d) ≤ V < value(d) +
 10^(dp − 800)` — with `trunc` set exactly when a non-zero digit was cut. -/
 theorem decSet_trunc_correct (s : Bytes) (hu : underscoreOK s = true) :
-    ∀ p, recognise s = some p → p.hex = false → (mantDigits s).1.length ≤ 800 → expLit s < 10000 →
+    ∀ p, recognise s = some p → p.hex = false → (mantDigits s).1.length ≤ 800 →
       ∃ d, decSet s = some d ∧ WF d ∧ d.neg = p.neg ∧ (p.mant = 0 → d.d = [] ∧ d.trunc = false) ∧
-        (p.mant ≠ 0 → d.d ≠ [] ∧ dval d ≤ valueOf p ∧ valueOf p < dval d + (10 : ℚ) ^ (d.dp - 800) ∧
-          (d.trunc = false → dval d = valueOf p) ∧ (d.trunc = true → dval d < valueOf p)) :=
+        (p.mant ≠ 0 → d.d ≠ [] ∧ dval d ≤ valueOf (clampP p (expGapS s)) ∧
+          valueOf (clampP p (expGapS s)) < dval d + (10 : ℚ) ^ (d.dp - 800) ∧
+          (d.trunc = false → dval d = valueOf (clampP p (expGapS s))) ∧
+          (d.trunc = true → dval d < valueOf (clampP p (expGapS s)))) :=
   decSet_specT s hu
 
 /-- **slowPath_mirror_correct** — the mirrored multiprecision slow path `d.set(s); d.floatBits()`
 computes what the specification says (recogniser verdict; correctly rounded value; range rule)
 on every run, truncating or not, for every text outside the class of finding N3. -/
-theorem slowPath_mirror_correct (s : Bytes) (hu : underscoreOK s = true) (hlit : expLit s < 10000)
+theorem slowPath_mirror_correct (s : Bytes) (hu : underscoreOK s = true)
     (hN3 : inClassN3 s = false) :
     (slowPathMirror s).toExcept =
       match recognise s with
       | none => .error .syntax
-      | some p => if p.hex then .error .syntax else p.eval :=
-  slowPathMirror_all s hu hlit hN3
+      | some p => if p.hex then .error .syntax else (clampP p (expGapS s)).eval :=
+  slowPathMirror_all s hu hN3
 
 /-- **parseFloat_mirror_correct** — the FULLY MIRRORED model of `bytesconv.ParseFloat(s, 64)`, with
 no specification inside (underscore check, special values, `readFloat`, `atofHex`,
 `atof64exact`, `decimal.set`, `Shift`/`leftShift`/`rightShift` with the cheat table,
 `floatBits`, `RoundedInteger`), equals `parseFloatSpec` — same bits or same error — for EVERY
-byte string with an exponent literal below 10000 that is not in the class of finding N3: the same
-two hypotheses as `parseFloat_correct`. No condition on the run (the shifts may overflow the
+byte string outside the class of finding N3 whose exponent literal is below 100000 or whose
+mantissa text is `Moderate`: the same two hypotheses as `parseFloat_correct`. No condition on the run (the shifts may overflow the
 800-digit buffer and set `trunc`), none on the number of digits (`set` itself may truncate).
 The driver runs this model next to the real `ParseFloat` on every case (`pfm=`), so the
 correspondence ties it bit for bit. -/
-theorem parseFloat_mirror_correct (s : Bytes) (hlit : expLit s < 10000) (hN3 : inClassN3 s = false) :
-    (parseFloatMirror s).toExcept = parseFloatSpec s :=
-  parseFloatMirror_all s hlit hN3
+theorem parseFloat_mirror_correct (s : Bytes) (hlit : expLit s < 100000 ∨ Moderate s) (hN3 : inClassN3 s = false) :
+    (parseFloatMirror s).toExcept = parseFloatSpec s := by
+  rw [parseFloatMirror_clamped s hN3, parseFloatSpecG_agree s hlit]
+
+/-- … and with no condition on the exponent: the mirrored parser = the specification of the
+numeral with its exponent literal clamped -/
+theorem parseFloat_mirror_clamped_correct (s : Bytes) (hN3 : inClassN3 s = false) :
+    (parseFloatMirror s).toExcept = parseFloatSpecG (expGapS s) s :=
+  parseFloatMirror_clamped s hN3
 
 /-- the round-3 statement (at most 800 significant digits, runs without truncation only), kept
 for reference -/
-theorem parseFloat_mirror_correct_partial (s : Bytes) (hlit : expLit s < 10000)
+theorem parseFloat_mirror_correct_partial (s : Bytes) (hlit : expLit s < 100000)
     (hmant : ∀ p, recognise s = some p → p.mant < 10 ^ 800) (hnt : NoTrunc s) :
     (parseFloatMirror s).toExcept = parseFloatSpec s :=
   parseFloatMirror_eq_spec s hlit hmant hnt
 
 /-- … and the reader's `atof` on top of it -/
-theorem reader_atof_mirror_correct (x : Bytes) (hne : x ≠ []) (hlit : expLit x < 10000)
+theorem reader_atof_mirror_correct_ext (x : Bytes) (hne : x ≠ []) (hlit : expLit x < 100000 ∨ Moderate x)
     (hN3 : inClassN3 x = false) :
     (readerAtofMirror x).toExcept = parseFloatSpec x := by
   cases h : atofLoop x 0 with
@@ -588,6 +641,13 @@ theorem reader_atof_mirror_correct (x : Bytes) (hne : x ≠ []) (hlit : expLit x
     unfold readerAtofMirror
     rw [h]
     exact parseFloat_mirror_correct x hlit hN3
+
+/-- the same with the earlier, narrower hypothesis on the exponent literal (kept under this name and
+signature because `Proofs/C02Closed.lean` uses it) -/
+theorem reader_atof_mirror_correct (x : Bytes) (hne : x ≠ []) (hlit : expLit x < 10000)
+    (hN3 : inClassN3 x = false) :
+    (readerAtofMirror x).toExcept = parseFloatSpec x :=
+  reader_atof_mirror_correct_ext x hne (Or.inl (by omega)) hN3
 
 /-! ## number errors become per-line syntax errors (reader.go:265-293) -/
 
